@@ -411,7 +411,22 @@ class Engine:
         return [(s, V.Str(fresh('fstr', IntS))) for (s, _) in outs]
 
     def ev_Await(self, e, st):
-        return self.ev(e.value, st)      # await f(x) = call under f's contract (frames: see frame pass)
+        # await f(x) = call under f's contract (frames: see frame pass).  A value that is a *coroutine object* (a call model
+        # returned it un-awaited) is run now: it yields its value or raises its exception.
+        if not isinstance(e.value, (ast.Name, ast.Attribute, ast.Subscript)):
+            return self.ev(e.value, st)      # the awaited expression is evaluated (called) right here
+        out = []
+        for (s, v) in self.ev(e.value, st):
+            if isinstance(v, Raise) or not z3.is_expr(v):
+                out.append((s, v)); continue
+            co = self.is_instance_of(v, 'coroutine')
+            q = self.fork(s, z3.Not(co))
+            if q is not None:
+                out.append((q, v))
+            q = self.fork(s, co)
+            if q is not None:
+                out += self.branches(q, [(z3.Not(coro_raises(v)), coro_value(v)), (coro_raises(v), Raise(coro_exc(v)))])
+        return out
 
     def ev_Yield(self, e, st):
         """async generators: `yield v` appends v to the ghost output sequence `yielded`"""
@@ -704,6 +719,8 @@ class Engine:
             if attr == '__name__':
                 return [(st, S(v.name))]
             raise OutOfSubset(f"class attribute {v.name}.{attr}")
+        if isinstance(v, PyFunc) and v.fn is None:
+            return [(st.tainted(), PyFunc(f"{v.name}.{attr}", None))]      # attribute of an unmodelled value: still unmodelled (tainted)
         if isinstance(v, (PyRef, PyTuple, PyMapped, PyFunc, PyIter, KwBundle, ItemRef)):
             return [(st, PyFunc(f".{attr}", lambda en, s, a, kw, v=v, attr=attr: en.container_method(v, attr, s, a, kw)))]
         # term
@@ -1084,7 +1101,31 @@ class Engine:
         return getattr(e, '_ordinal', None)
 
     def ev_DictComp(self, e, st):
-        raise OutOfSubset("dict comprehension")
+        """{k: v for targets in it if c}  ==  d = {}; for targets in it: if c: d[k] = v   (same loop rule, invariant keyed by
+        ('dictcomp', ordinal) in the contract)"""
+        if len(e.generators) != 1 or e.generators[0].is_async:
+            raise OutOfSubset("dict comprehension shape")
+        g = e.generators[0]
+        name = f"__dictcomp{getattr(e, '_ordinal', 0)}"
+        st1, ref = self.new_ref(st, 'dict', V.Dict(VL.nil))
+        st1 = st1.bind(name, ref)
+        store = ast.Assign(targets=[ast.Subscript(value=ast.Name(id=name, ctx=ast.Load()), slice=e.key, ctx=ast.Store())], value=e.value)
+        body = store
+        for cnd in reversed(g.ifs):
+            body = ast.If(test=cnd, body=[body], orelse=[])
+        loop = ast.For(target=g.target, iter=g.iter, body=[body], orelse=[])
+        ast.copy_location(loop, e)
+        ast.fix_missing_locations(loop)
+        loop._ordinal = ('dictcomp', getattr(e, '_ordinal', 0))
+        out = []
+        for (s2, kind, v) in self.st_For(loop, st1):
+            if kind == 'raise':
+                out.append((s2.copy(env=st.env), Raise(v)))
+            elif kind == 'fall':
+                out.append((s2.copy(env=st.env), s2.env[name]))
+            else:
+                raise OutOfSubset("control flow out of a dict comprehension")
+        return out
 
     def ev_SetComp(self, e, st):
         raise OutOfSubset("set comprehension")
@@ -1743,7 +1784,19 @@ class Engine:
             cur = st.heap[c.loc]
             if c.kind == 'dict':
                 return [self.mutate(c, st, V.Dict(assoc_set(V.ditems(cur), k, v)))]
-            raise OutOfSubset("list item store")
+            if c.kind == 'list':
+                n = length(V.items(cur))
+                idx = V.i(k)
+                out = []
+                q = self.fork(st, z3.And(is_intlike(k), idx >= 0, idx < n))
+                if q is not None:
+                    out.append(self.mutate(c, q, V.List(list_set(V.items(cur), idx, v))))
+                q = self.fork(st, z3.Not(z3.And(is_intlike(k), idx >= 0, idx < n)))
+                if q is not None:
+                    self.notes.append('list item store possibly out of range (IndexError path dropped into taint)')
+                    out.append(self.mutate(c, q.tainted(), V.List(fresh('list_after_bad_store', VL))))
+                return out
+            raise OutOfSubset("item store on a set")
         if isinstance(recv_expr, ast.Attribute):
             # obj.attr[k] = v on a dict held in a field: functional update of the field
             outs = []
@@ -2151,6 +2204,9 @@ class LoopContract:
 obj_eq = z3.Function('obj_eq', V, V, BoolS)         # __eq__ of two objects that are not identical
 _obj_bool = z3.Function('obj_bool', V, BoolS)        # __bool__/__len__ based truthiness of an object
 str_concat = z3.Function('str_concat', IntS, IntS, IntS)
+coro_raises = z3.Function('coro_raises', V, BoolS)         # coroutine objects: awaiting them raises ...
+coro_exc = z3.Function('coro_exc', V, V)                    # ... this exception
+coro_value = z3.Function('coro_value', V, V)                # ... or yields this value
 stream_events = z3.Function('stream_events', V, VL)      # the finite sequence of events an async iterable produces
 other_is_bytes = z3.Function('other_is_bytes', IntS, BoolS)   # opaque values that are bytes objects
 
